@@ -43,7 +43,7 @@ THEOREMS = [
     "Claripy.Props.C11.C11_strings_step", "Claripy.Solver.stAdd_spec", "Claripy.Solver.stSimplify_spec",
     "Claripy.Props.C11.C11_child_refines", "Claripy.Props.C11.C11_child_refines_or_gives_up",
     "Claripy.Props.C11.C11_child_step", "Claripy.Solver.cL4_add_spec", "Claripy.Solver.chSimplify_spec",
-    "Claripy.Solver.cL4_opt_spec",
+    "Claripy.Solver.cL4_opt_spec", "Claripy.Props.C11.C11_full_partial",
 ]
 TESTS = []
 CLASSES = ["Solver", "SolverCacheless", "SolverStrings"]
